@@ -61,6 +61,10 @@ def run(case, rec):
 
     if kind in ("tree.copy", "node.copy"):
         src, nodes = build(case["spec"], flavour=fl, typed=typed, name="SRC")
+        probe = Engine(case["spec"], typed=typed, flavour=fl.name)
+        if probe.build_problems:
+            rec.fail("source-build:" + probe.build_problems[0][0], probe.build_problems[0])
+            return
         before = snap(src, u)
         if kind == "tree.copy":
             try:
